@@ -55,7 +55,7 @@ def wrong_value_signature(event, est):
 
 class C07(CfProp):
     pid = "C07"
-    budgets = {"quick": 400, "thorough": 4000}
+    budgets = {"quick": 1200, "thorough": 8000}
     rule = ("random ADMGs with 2..4 nodes x random conjunctions of 1..3 counterfactual events; non-trivial: the answer is an expression other than a "
             "single term, or Zero, or a refusal; distinct by (graph, event)")
     explanation = ("id_star must be one of the results of the Gallina model over all visiting orders; each expression is evaluated in a random functional "
@@ -72,7 +72,8 @@ class C07(CfProp):
                           "event": [[{"k": "V", "n": "A", "s": None}, ["A", False]], [{"k": "C", "n": "C", "s": None, "i": [["A", True]]}, ["C", True]]]})
         while len(cases) < n:
             g = self.rand_case(rng, 4)
-            cases.append({"g": g, "event": GEV.rand_event(rng, g["nodes"])})
+            ev = GEV.structured_event(rng, g) if rng.random() < 0.2 else None
+            cases.append({"g": g, "event": ev or GEV.rand_event(rng, g["nodes"])})
         return cases
 
     def call(self, gr, event):
